@@ -377,7 +377,7 @@ func (w *wWorld) newNode(nid NodeID, pk *ecdsa.PrivateKey, byz, twin bool, cache
 		nd.proposer, nd.voter, nd.viewStates, sender)
 	eventloop.Register(nd.eventLoop, func(c hotstuff.CommitEvent) { nd.commits = append(nd.commits, c.Block) })
 	eventloop.Register(nd.eventLoop, func(e hotstuff.ViewChangeEvent) { nd.viewChg = append(nd.viewChg, e) })
-	for i := 0; i < 400; i++ {
+	for i := 0; i < 4000; i++ {
 		nd.cmdCache.Add(&clientpb.Command{ClientID: 1, SequenceNumber: uint64(i + 1), Data: []byte(fmt.Sprint(i))})
 	}
 	return nd, nil
